@@ -94,6 +94,24 @@ class PROP(Prop):
                         R = mb.rscript(parts)
                         cs.append(Case(cligen.cli_line(proto, 1, [cligen.call_op(("RHR", 1, 1), R=R)]), {"k": "cli_sustained", "len": len(d)}, prof))
                         cs.append(Case("SRV %s %s - - -" % (proto, R), {"k": "srv_sustained", "len": len(d)}, prof))
+        # a client whose EARLIER call ended inside a reply that announced a (possibly huge) length -- by a read error or by being
+        # abandoned -- and whose NEXT call is answered by a complete, valid, shorter frame: that call returns a result; waiting on
+        # although nothing is missing from the input is a hang
+        for prof in self.profiles:
+            for proto in ("tcp", "rtu"):
+                heads = [bytes([0x18, 0xFF, 0xFF]), bytes([0x03, 0xFA, 0, 1, 0, 2]), bytes([0x01, 0xFF, 1]), bytes([0x17, 0x80, 9, 9]), bytes([0x11, 0xF0, 1, 0xFF])]
+                for h in heads:
+                    for how in ("err", "abandon"):
+                        slave = rng.randrange(1, 248)
+                        if proto == "tcp":
+                            first = mb.be16(0) + mb.be16(0) + mb.be16(0xFFFF if h[0] == 0x18 else 1 + 2 + h[1]) + bytes([slave]) + h
+                        else:
+                            first = bytes([slave]) + h
+                        rsp = ("RHR", [rng.randrange(65536)])
+                        second = cligen.frame(proto, 1, slave, mb.spec_rsp_pdu(rsp))
+                        op1 = cligen.call_op(("RHR", 1, 1), R=mb.rscript([first], ["e:TimedOut"])) if how == "err" else cligen.call_op(("RHR", 1, 1), R=mb.rscript([first], ["p", "p"]), drop="0")
+                        op2 = cligen.call_op(("RHR", 2, 1), R="d" + second.hex())
+                        cs.append(Case(cligen.cli_line(proto, slave, [op1, op2]), {"k": "after_partial", "len": len(first) + len(second)}, prof))
         # sustained input fed by a generator event (r<count>x<chunk>: nothing about it is recorded by the harness), so that the heap meter
         # sees the library's own memory only: whatever the amount of line noise, live memory stays under a small
         # FIXED ceiling (the receive buffer, one frame, the decoder's bounded record of skipped bytes)
@@ -119,6 +137,10 @@ class PROP(Prop):
             return "panic on input %s" % c.line[:80]
         if k == "HUNG":
             return "hang/crash: %s" % (c.impl or "")[:80]
+        if c.meta.get("k") == "after_partial":
+            last = cligen.split_results(c.impl or "")[-1]
+            if last.startswith("WAIT"):
+                return "the call after one that ended inside a reply keeps waiting although its complete reply was delivered (nothing is missing from the input): %s" % (c.impl or "")[:120]
         if not c.meta.get("on_model") and c.meta.get("k") == "quiet" and c.peak > QUIET_CEILING:
             return "peak live heap %d bytes while %d bytes of %s went through: memory grows with the amount of input" % (c.peak, c.meta["len"], c.meta["what"])
         if not c.meta.get("on_model") and c.peak > HEAP_CEILING + 256 * c.meta.get("len", 0):
